@@ -117,6 +117,9 @@ func (w *World) removeFlight(f *Flight) {
 }
 
 func (w *World) fireTimer(n *Node, r *registration, label string) {
+	if w.forceReleaseMain(n) && (n.trig == nil || n.trig.cur != r) {
+		return // the released loops re-registered: this registration is no longer the armed one
+	}
 	r.fired = true
 	w.ev("%s n%d h%d v%d", label, n.idx, r.h, r.v)
 	tr := r.trigger()
@@ -617,11 +620,21 @@ func (w *World) syncTo(n *Node, target *StoredBlock, th uint64, label string) bo
 	}
 	w.preSync(n, th)
 	w.noteUpdateState(n, th, false)
+	idx := len(n.updates) - 1
 	lh, ctx := n.lh, n.ctx
 	blk, proof := target.block, target.proof
 	done := make(chan error, 1)
 	go func() { done <- lh.UpdateState(ctx, blk, proof) }()
 	w.quiesce()
+	if n.mainParked != nil || len(n.pendingSyncs) > 0 {
+		// the main loop is busy: the call may legitimately wait for it (callers are served first come, first served);
+		// it is picked up again when it returns
+		n.pendingSyncs = append(n.pendingSyncs, &pendingSync{done: done, idx: idx, th: th, before: before, epoch: n.epoch})
+		n.syncPre = nil
+		w.probe("updatestate-while-main-loop-busy")
+		w.pollPendingSyncs(n)
+		return true
+	}
 	select {
 	case e := <-done:
 		w.postSync(n, th, before, e)
